@@ -12,7 +12,7 @@ import z3
 
 from . import vals as V
 from .engine import Engine, Path, PathEnd
-from .sym import Z, C, LList, LTuple, ZBool, ZInt, ZSeq, Unsupported
+from .sym import Z, C, LList, LTuple, LDict, SObj, Closure, ZBool, ZInt, ZSeq, Unsupported
 
 _FUNCS = {}          # canonical key -> dict of RecFunctions
 CANON_E = z3.Const("elt!canon", V.Val)
@@ -54,13 +54,30 @@ def value_key(v):
         return ("c", x) if isinstance(x, (type(None), bool, int, float, str)) else ("co", id(x))
     if isinstance(v, LTuple):
         return ("t",) + tuple(value_key(i) for i in v.items)
-    if isinstance(v, LList) and not v.concrete:
-        return ("l", v.seq.get_id())
+    if isinstance(v, LList):
+        if not v.concrete:
+            return ("l", v.seq.get_id(), v.fresh)
+        return ("lc", v.fresh) + tuple(value_key(i) for i in v.items)
+    if isinstance(v, LDict):
+        return ("d", v.fresh) + tuple((value_key(k), value_key(x)) for k, x in v.pairs)
+    if isinstance(v, SObj):
+        return ("o", id(v.cls), v.fresh) + tuple((k, value_key(x)) for k, x in sorted(v.attrs.items()))
+    if isinstance(v, Closure):
+        return ("cl", id(v.node)) + tuple((k, value_key(x)) for k, x in sorted(v.env.items()) if k in _names_of(v.node))
     return ("id", id(v))
 
 
+_NAMES = {}
+
+
+def _names_of(node):
+    if id(node) not in _NAMES:
+        _NAMES[id(node)] = {n.id for n in ast.walk(node) if isinstance(n, ast.Name)}
+    return _NAMES[id(node)]
+
+
 def env_key(node, env):
-    names = sorted({n.id for n in ast.walk(node) if isinstance(n, ast.Name)})
+    names = sorted(_names_of(node))
     return (id(node),) + tuple((n, value_key(env[n])) for n in names if n in env)
 
 
@@ -81,13 +98,17 @@ def explore_body(ip, thunk, context_free=True):
     outcomes = []
 
     def run(p):
+        p.qfacts = list(outer.qfacts)
+        n_q = len(p.qfacts)
         # context-free: the body is explored without the caller's path condition, so that the same expression yields
         # the same merged term (and hence the same recursive function) at every site
         base_pc = [] if context_free else list(outer.pc)
         p.pc = list(base_pc)
+        p._solver, p._synced = None, 0
         sub = Interp(p, ip.program, ip.contracts, ip.verifying)
         sub.depth = ip.depth
         sub.modifies_ok = ip.modifies_ok
+        sub.clause_mode = getattr(ip, "clause_mode", None)
         try:
             v = thunk(sub)
             out = ("val", v)
@@ -100,6 +121,8 @@ def explore_body(ip, thunk, context_free=True):
         for ob in p.obligations:
             outer.obligations.append(ob)
         cond = z3.And(p.pc[base:]) if len(p.pc) > base else z3.BoolVal(True)
+        for qf in p.qfacts[n_q:]:
+            outer.add_qfact(lambda j, qf=qf, cond=cond: z3.Implies(cond, qf(j)))
         outcomes.append((cond, out))
     eng.explore(run, nested=True)
     return outcomes
@@ -158,51 +181,124 @@ def n_funcs():
     return sum(len(v) for v in _FUNCS.values())
 
 
-def build_comprehension(ip, node, g, xs, fr):
-    """[elt for target in xs if conds] with xs a z3 Seq(Val)."""
+LEMMAS_EMITTED = set()
+
+
+def comp_sources(ip, it):
+    """Normalise the iterable of a comprehension over symbolic data: ([z3 seqs], make_elem(consts, i) -> executor value)."""
+    from .builtins_model import SymEnumerate, SymZip
+    if isinstance(it, SymZip):
+        seqs = list(it.seqs)
+        return seqs, (lambda es, i: LTuple([Z(e) for e in es]))
+    if isinstance(it, SymEnumerate):
+        return [it.seq], (lambda es, i: LTuple([ZInt(i + it.start), Z(es[0])]))
+    return [ip.iter_seq(it)], (lambda es, i: Z(es[0]))
+
+
+CANON_I = z3.Int("idx!canon")
+
+
+def build_comprehension(ip, node, g, it, fr):
+    """[elt for target in <symbolic iterable> if conds]; the iterable is a sequence, a zip of sequences or an
+    enumerate.  Defines (or re-uses) recursive functions CompVal / CompErr of an index and, for a plain map
+    (no filter, no element error), proves and registers the pointwise lemma
+        len(result) = n  and  result[j] = elt(xs[j])   (n = length of the shortest source)."""
     from .interp import Frame, PyRaise
-    ckey = ("comp",) + env_key(node, fr.env)
-    e = _BODY_CACHE[ckey][0] if ckey in _BODY_CACHE else V.fresh("elt")
+    seqs, mk = comp_sources(ip, it)
+    m = len(seqs)
+    ckey = ("comp", m) + env_key(node, fr.env)
+    if ckey in _BODY_CACHE:
+        es, idx = _BODY_CACHE[ckey][0]
+    else:
+        es, idx = [V.fresh("elt") for _ in range(m)], V.fresh("cidx", V.I)
 
     def body(sub):
         env = dict(fr.env)
         f2 = Frame(fr.func, env, fr.fn_globals, fr.cls_ctx, fr.name)
-        sub.assign_target(g.target, Z(e), f2)
-        keep = True
+        sub.assign_target(g.target, mk(es, idx), f2)
         for c in g.ifs:
             if not sub.truth(sub.eval(c, f2)):
-                keep = False
-                break
-        if not keep:
-            return None
+                return None
         return sub.eval(node.elt, f2)
-    outcomes = explore_cached(ip, ckey, body, e)
+    outcomes = explore_cached(ip, ckey, body, (es, idx))
     keep_cond = z3.Or([c for c, (tag, v) in outcomes if tag == "val" and v is not None] or [z3.BoolVal(False)])
     val, errs = merge_values(ip, [(c, o) for c, o in outcomes if not (o[0] == "val" and o[1] is None)])
     if val is None:
         val = V.VNone
     err = _err_code(errs)
-    (cval, ckeep, cerr), params, caps = _canon(e, [val, z3.simplify(keep_cond), err])
-    found = lookup_equiv("comp", [cval, ckeep, cerr], params)
+    canon_es = [z3.Const(f"elt!canon{c}", V.Val) for c in range(m)]
+    terms = [val, z3.simplify(keep_cond), err]
+    bound = list(es) + [idx]
+    caps = sorted([c for c in free_consts(terms) if not any(c.eq(b) for b in bound)], key=lambda c: (str(c.sort()), str(c)))
+    params = [z3.Const(f"cap!{i}", c.sort()) for i, c in enumerate(caps)]
+    sub = list(zip(caps, params)) + list(zip(es, canon_es)) + [(idx, CANON_I)]
+    cval, ckeep, cerr = [z3.substitute(t, *sub) for t in terms]
+    found = lookup_equiv(("comp", m), [cval, ckeep, cerr], params)
     if found is None:
         n = n_funcs()
         sorts = [p.sort() for p in params]
-        FV = z3.RecFunction(f"CompVal{n}", V.VS, V.I, *sorts, V.VS)
-        FE = z3.RecFunction(f"CompErr{n}", V.VS, V.I, *sorts, V.I)
-        s, i = z3.Const("cs", V.VS), z3.Int("ci")
-        at = lambda t: z3.substitute(t, (CANON_E, s[i]))
-        z3.RecAddDefinition(FV, [s, i] + params, z3.If(z3.Or(i < 0, i >= z3.Length(s)), z3.Empty(V.VS), z3.If(
-            at(ckeep), z3.Concat(z3.Unit(at(cval)), FV(s, i + 1, *params)), FV(s, i + 1, *params))))
-        z3.RecAddDefinition(FE, [s, i] + params, z3.If(z3.Or(i < 0, i >= z3.Length(s)), z3.IntVal(0), z3.If(
-            at(cerr) != 0, at(cerr), FE(s, i + 1, *params))))
-        found = (FV, FE, bool(errs))
-        remember("comp", [cval, ckeep, cerr], params, found)
-    FV, FE, may_err = found
+        # element-level functions (non-recursive definitions): value, keep condition, error code
+        EV = z3.RecFunction(f"CompElt{n}", *([V.Val] * m), V.I, *sorts, V.Val)
+        EK = z3.RecFunction(f"CompKeep{n}", *([V.Val] * m), V.I, *sorts, V.B)
+        EE = z3.RecFunction(f"CompEltErr{n}", *([V.Val] * m), V.I, *sorts, V.I)
+        z3.RecAddDefinition(EV, canon_es + [CANON_I] + params, cval)
+        z3.RecAddDefinition(EK, canon_es + [CANON_I] + params, ckeep)
+        z3.RecAddDefinition(EE, canon_es + [CANON_I] + params, cerr)
+        FV = z3.RecFunction(f"CompVal{n}", *([V.VS] * m), V.I, *sorts, V.VS)
+        FE = z3.RecFunction(f"CompErr{n}", *([V.VS] * m), V.I, *sorts, V.I)
+        ss, i = [z3.Const(f"cs{c}", V.VS) for c in range(m)], z3.Int("ci")
+        at = lambda F: F(*[ss[c][i] for c in range(m)], i, *params)
+        stop = z3.Or([i < 0] + [i >= z3.Length(sq) for sq in ss])
+        z3.RecAddDefinition(FV, ss + [i] + params, z3.If(stop, z3.Empty(V.VS), z3.If(
+            at(EK), z3.Concat(z3.Unit(at(EV)), FV(*ss, i + 1, *params)), FV(*ss, i + 1, *params))))
+        z3.RecAddDefinition(FE, ss + [i] + params, z3.If(stop, z3.IntVal(0), z3.If(
+            at(EE) != 0, at(EE), FE(*ss, i + 1, *params))))
+        found = (FV, FE, bool(errs), (EV, EK, params))
+        remember(("comp", m), [cval, ckeep, cerr], params, found)
+    FV, FE, may_err, (EV, EK, f_params) = found
     if errs:
-        code = FE(xs, z3.IntVal(0), *caps)
+        code = FE(*seqs, z3.IntVal(0), *caps)
         ip.guard([(k, code == KIND_CODE[k]) for k in errs])
         ip.path.assume(code == 0)
-    return LList(None, FV(xs, z3.IntVal(0), *caps))
+    result = FV(*seqs, z3.IntVal(0), *caps)
+    is_map = not g.ifs and not errs
+    if is_map:
+        n_len = z3.Length(seqs[0])
+        for sq in seqs[1:]:
+            n_len = z3.If(z3.Length(sq) < n_len, z3.Length(sq), n_len)
+        elem_at = lambda j: EV(*[seqs[c][j] for c in range(m)], j, *caps)
+        _emit_map_lemma(ip, FV, EV, EK, m, f_params)
+        ip.path.assume(z3.Length(result) == n_len)
+        ip.path.add_qfact(lambda j: z3.Implies(z3.And(j >= 0, j < n_len), result[j] == elem_at(j)))
+    return LList(None, result)
+
+
+def _emit_map_lemma(ip, FV, EV, EK, m, f_params):
+    """Induction (on the start index, downwards) for the pointwise characterisation of a map comprehension whose
+    keep-condition is valid (no filter):
+         L(i):  len(F(xs, i)) = max(0, n - i)   and   for 0 <= j < n - i:  F(xs, i)[j] = Elt(xs[i + j], i + j).
+       The step VC assumes L(i + 1) (instantiated at j - 1) and proves L(i) at an arbitrary j; the base i >= n is
+       the definition.  The VCs are quantifier-free and are discharged like any other obligation."""
+    name = FV.name()
+    if name in LEMMAS_EMITTED:
+        return
+    LEMMAS_EMITTED.add(name)
+    ss = [z3.Const(f"lm_s{c}", V.VS) for c in range(m)]
+    i, j = z3.Int("lm_i"), z3.Int("lm_j")
+    n = z3.Length(ss[0])
+    for sq in ss[1:]:
+        n = z3.If(z3.Length(sq) < n, z3.Length(sq), n)
+    F = lambda k: FV(*ss, k, *f_params)
+    elt = lambda k: EV(*[ss[c][k] for c in range(m)], k, *f_params)
+    from .engine import Obligation
+    e0 = [z3.Const(f"lm_e{c}", V.Val) for c in range(m)]
+    keep = Obligation(f"lemma:{name}#keep-valid", [], EK(*e0, i, *f_params), kind="lemma")
+    base = Obligation(f"lemma:{name}#base", [i >= n], z3.Length(F(i)) == 0, kind="lemma")
+    hyps = [i >= 0, i < n, z3.Length(F(i + 1)) == n - i - 1, j >= 0, j < n - i,
+            EK(*[ss[c][i] for c in range(m)], i, *f_params),
+            z3.Implies(z3.And(j - 1 >= 0, j - 1 < n - i - 1), F(i + 1)[j - 1] == elt(i + j))]
+    step = Obligation(f"lemma:{name}#step", hyps, z3.And(z3.Length(F(i)) == n - i, F(i)[j] == elt(i + j)), kind="lemma")
+    ip.path.obligations += [keep, base, step]
 
 
 def fold_genexp(ip, fname, node, fr):
@@ -331,3 +427,34 @@ def fold_seq(ip, fname, seq):
 
 def sorted_seq(ip, xs, key, kwargs):
     raise Unsupported("sorted over a symbolic sequence")
+
+
+_MERGED_CACHE = {}
+
+
+def merged_bool(ip, thunk, key=None):
+    """Truth of a boolean-valued expression over all its paths as one z3 Bool: OR of (path condition AND value);
+    a raising path contributes False.  Cached on `key` (expression + values of its variables): the exploration is
+    context-free.  Quantified facts registered while exploring are re-registered on a cache hit."""
+    if key is not None:
+        key = key + (getattr(ip, "clause_mode", None), len(ip.path.qfacts))
+        if key in _MERGED_CACHE:
+            term, new_q = _MERGED_CACHE[key]
+            for q in new_q:
+                ip.path.add_qfact(q)
+            return term
+    n_q = len(ip.path.qfacts)
+    outcomes = explore_body(ip, thunk)
+    parts = []
+    for c, (tag, v) in outcomes:
+        if tag != "val":
+            continue
+        t = ip.z_truth(v)
+        if t is True:
+            parts.append(c)
+        elif t is not False:
+            parts.append(z3.And(c, t))
+    term = z3.Or(parts) if parts else z3.BoolVal(False)
+    if key is not None:
+        _MERGED_CACHE[key] = (term, list(ip.path.qfacts[n_q:]))
+    return term
